@@ -127,7 +127,7 @@ Print Assumptions C10_newline_ends_line.
 
 (** Unknown keys expand to nothing.  [fmt_render env styles tw] is format_state for a style
     without a wide element with the scratch String `buf` threaded through the walk as in the
-    code (declared once, cleared at the top of the Placeholder arm, style.rs:241/256); [env]
+    code (declared once, cleared at the top of the Placeholder arm, style.rs:243/258); [env]
     is the format_map (with_key), [is_builtin] the list of names in format_state's `match`
     (FORMAT_KEYS, regenerated from style.rs by tools/constants.py).
     (a) Whole templates: a template of the grammar containing a placeholder whose key is
